@@ -153,6 +153,7 @@ func init() {
 			"Not decided: that the permutation arithmetic (UnsafePermute, cycle following, iterator order) is the right permutation; the composition law.",
 		Quick: []string{"default", "inplacetranspose"},
 		Run: func(rc *rules.RC) {
+			rules.B2(rc)
 			rules.T8(rc)
 			rules.T7(rc)
 			rules.SV(rc, 20)
@@ -217,6 +218,7 @@ func init() {
 			"Not decided: counts, run/edge finders, fill values, that valid positions get the unmasked value of elementwise operations.",
 		Quick: []string{"default", "inplacetranspose"},
 		Run: func(rc *rules.RC) {
+			rules.B2(rc)
 			rules.DA(rc, 50)
 			rules.I7(rc)
 			rules.K8(rc, 100)
@@ -372,6 +374,7 @@ func init() {
 		Quick: []string{"default", "inplacetranspose", "noasm"},
 		Run: func(rc *rules.RC) {
 			rules.B1(rc)
+			rules.B2(rc)
 			rules.B3(rc)
 			rules.SP(rc, "C20", 6)
 			rules.LGuards(rc, "C20")
